@@ -11,6 +11,7 @@ import (
 	_ "verifharness/bind"
 	_ "verifharness/c17"
 	_ "verifharness/cc"
+	_ "verifharness/clz"
 	_ "verifharness/cond"
 	_ "verifharness/conv"
 	_ "verifharness/handles"
